@@ -376,7 +376,8 @@ Proof.
       * constructor; simpl; try assumption. intros r0 X; discriminate.
       * destruct (drop_old c (s_now s) (rev (newest :: page'))) as [|ch0 rec'] eqn:D.
         -- constructor; simpl; try assumption. intros r0 X; discriminate.
-        -- constructor; simpl; try assumption; [|intros r0 X; discriminate].
+        -- constructor; cbn [s_now s_db s_ic s_qc s_cl s_mk s_run s_done fst]; try assumption;
+             [|intros r0 X; discriminate].
            intros m e He. apply mget_set_markers_list in He as [[[ch [_ Hm]] ->]|[_ He]]; simpl.
            ++ split; [lia|]. rewrite (markers_of_write_ttl c _ _ Hm). reflexivity.
            ++ apply H3; exact He.
@@ -427,4 +428,954 @@ Proof.
     + intros ch Hin. apply H1 in Hin. lia.
     + intros m e He. destruct (H3 m e He) as [A B]. split; [lia | exact B].
     + intros e He. destruct (H4 e He) as [A [B C]]. repeat split; try lia; assumption.
+Qed.
+
+(* ------------------------------------------------------------------------------------------ *)
+(* Reads through the iterator cache                                                            *)
+
+Definition fresh_ent (c : cfg) (now : N) (n : nat) (j : N) : ient :=
+  mkIE now (now + c_ittl c + jext (c_ittl c) (c_jit c) j) n.
+
+Definition usable_i (mk : list (mkey * ment)) (now : N) (ic : list (ikey * ient)) (k : ikey) (e : ient) : Prop :=
+  iget k ic = Some e /\ now < ie_exp e /\ invalid_at mk now (ie_lm e) k = false.
+
+Lemma iter_read_cases c now n mk st j ic k ic' n' h :
+  iter_read c now n mk st j ic k = (ic', (n', h)) ->
+  (forall k0 e0, iget k0 ic' = Some e0 -> iget k0 ic = Some e0 \/ e0 = fresh_ent c now n j) /\
+  ((h = true /\ c_ion c = true /\ exists e, usable_i mk now ic k e /\ n' = ie_snap e) \/ (h = false /\ n' = n)).
+Proof.
+  unfold iter_read. destruct (c_ion c) eqn:Ion; simpl.
+  2:{ intro H. injection H as <- <- <-. split; [intros; left; assumption | right; split; reflexivity]. }
+  assert (Hmiss : forall ic0,
+    (forall k0 e0, iget k0 ic0 = Some e0 -> iget k0 ic = Some e0) ->
+    (if st && negb (invalid_at mk now now k)
+     then (aset ikey_eqb k (mkIE now (now + c_ittl c + jext (c_ittl c) (c_jit c) j) n) ic0, (n, false))
+     else (ic0, (n, false))) = (ic', (n', h)) ->
+    (forall k0 e0, iget k0 ic' = Some e0 -> iget k0 ic = Some e0 \/ e0 = fresh_ent c now n j) /\
+    ((h = true /\ true = true /\ exists e, usable_i mk now ic k e /\ n' = ie_snap e) \/ (h = false /\ n' = n))).
+  { intros ic0 Hsub H. destruct (st && negb (invalid_at mk now now k)); injection H as <- <- <-.
+    - split; [|right; split; reflexivity]. intros k0 e0 He. unfold iget in He.
+      apply (aget_aset_cases ikey_eqb ikey_eqb_spec) in He as [[-> ->]|[_ He]]; [right; reflexivity|].
+      left. apply Hsub. exact He.
+    - split; [|right; split; reflexivity]. intros k0 e0 He. left. apply Hsub; exact He. }
+  destruct (aget ikey_eqb k ic) as [e|] eqn:G.
+  - destruct (now <? ie_exp e) eqn:L.
+    + destruct (invalid_at mk now (ie_lm e) k) eqn:I.
+      * apply Hmiss. intros k0 e0 He. unfold iget in He.
+        apply (aget_adel_some ikey_eqb ikey_eqb_spec) in He as [_ He]. exact He.
+      * intro H. injection H as <- <- <-. split; [intros; left; assumption|].
+        left. repeat split. exists e. split; [|reflexivity]. repeat split; try assumption.
+        apply N.ltb_lt; exact L.
+    + apply Hmiss. intros; assumption.
+  - apply Hmiss. intros; assumption.
+Qed.
+
+Lemma iter_reads_cases c now n mk st jis ic keys ic' res :
+  iter_reads c now n mk st jis ic keys = (ic', res) ->
+  (forall k0 e0, iget k0 ic' = Some e0 -> iget k0 ic = Some e0 \/ exists j, e0 = fresh_ent c now n j) /\
+  (forall k n' h, In (k, n', h) res ->
+     n' = n \/ (c_ion c = true /\ exists e, usable_i mk now ic k e /\ n' = ie_snap e)) /\
+  map (fun x => fst (fst x)) res = keys.
+Proof.
+  revert jis ic ic' res. induction keys as [|k ks IH]; intros jis ic ic' res H; simpl in H.
+  - injection H as <- <-. repeat split; [intros; left; assumption | intros ? ? ? []].
+  - destruct (iter_read c now n mk st (hd 0 jis) ic k) as [ic1 [n1 h1]] eqn:E1.
+    destruct (iter_reads c now n mk st (tl jis) ic1 ks) as [ic2 rest] eqn:E2.
+    injection H as <- <-.
+    apply iter_read_cases in E1 as [A1 B1]. apply IH in E2 as [A2 [B2 C2]].
+    split; [|split].
+    + intros k0 e0 He. apply A2 in He as [He|[j ->]]; [|right; exists j; reflexivity].
+      apply A1 in He as [He| ->]; [left; exact He | right; eexists; reflexivity].
+    + intros k' n' h [X|Hin].
+      * injection X as <- <- <-. destruct B1 as [[_ [Ion [e [U ->]]]]|[_ ->]]; [right | left; reflexivity].
+        split; [exact Ion|]. exists e. split; [exact U | reflexivity].
+      * apply B2 in Hin as [->|[Ion [e [[G [L I]] ->]]]]; [left; reflexivity|].
+        apply A1 in G as [G| ->].
+        -- right. split; [exact Ion|]. exists e. split; [|reflexivity]. repeat split; assumption.
+        -- left. reflexivity.
+    + simpl. rewrite C2. reflexivity.
+Qed.
+
+Lemma res_src_in k n res : In (k, n) (res_src res) -> exists h, In (k, n, h) res.
+Proof.
+  unfold res_src. intro H. apply in_map_iff in H as [[[k0 n0] h0] [E Hin]]. simpl in E.
+  injection E as <- <-. exists h0. exact Hin.
+Qed.
+
+(* ------------------------------------------------------------------------------------------ *)
+(* The invariant behind staleness_bounded (needs cfg_ok)                                       *)
+
+Definition cached_of (s : state) : option N :=
+  match s_run s with
+  | Some (RPending x) => Some x
+  | Some (RRead r) => Some (r_cached r)
+  | None => None
+  end.
+
+Record Inv1 (c : cfg) (s : state) : Prop := {
+  i1_pos : forall ch, In ch (s_db s) -> 1 <= ch_ts ch;
+  i1_done : (s_done s <= length (s_db s))%nat;
+  i1_ic : forall k e, iget k (s_ic s) = Some e ->
+          ie_lm e <= s_now s /\ ie_exp e = ie_lm e + c_ittl c /\
+          forall j ch, nth_error (s_db s) j = Some ch -> (ie_snap e <= j)%nat -> ie_lm e < ch_ts ch;
+  i1_qc : forall ks e, qget ks (s_qc s) = Some e ->
+          qe_lm e <= s_now s /\ qe_exp e = qe_lm e + c_qttl c /\
+          (c_ion c = false -> forall k n, In (k, n) (qe_src e) ->
+             forall j ch, nth_error (s_db s) j = Some ch -> (n <= j)%nat -> qe_lm e < ch_ts ch);
+  i1_cached : forall x, cached_of s = Some x -> x <= s_now s;
+  i1_run : forall r, s_run s = Some (RRead r) ->
+           (s_done s <= length (r_seen r))%nat /\
+           forall rest, s_db s = r_seen r ++ rest ->
+           forall c' ch, In c' (r_seen r) -> In ch rest -> ch_ts c' < ch_ts ch;
+  i1_J : forall i ch, nth_error (s_db s) i = Some ch ->
+         ((exists e, s_cl s = Some e /\ ch_ts ch <= cl_lm e) \/
+          (exists x, cached_of s = Some x /\ ch_ts ch <= x)) ->
+         (i < s_done s)%nat;
+  i1_Ic : forall i ch k e, (i < s_done s)%nat -> nth_error (s_db s) i = Some ch ->
+          iget k (s_ic s) = Some e -> touches (ch_tup ch) k = true -> (ie_snap e <= i)%nat ->
+          s_now s < ie_exp e ->
+          exists m me, In m (MStore :: markers_of_key k) /\ mget m (s_mk s) = Some me /\
+                       ie_lm e < me_lm me /\ ie_exp e <= me_exp me;
+  i1_Qc : c_ion c = false ->
+          forall i ch ks e k n, (i < s_done s)%nat -> nth_error (s_db s) i = Some ch ->
+          qget ks (s_qc s) = Some e -> In (k, n) (qe_src e) -> touches (ch_tup ch) k = true ->
+          (n <= i)%nat -> s_now s < qe_exp e ->
+          exists cl, s_cl s = Some cl /\ qe_lm e <= cl_lm cl /\ qe_exp e <= cl_exp cl
+}.
+
+Lemma inv1_init c : Inv1 c init_state.
+Proof.
+  constructor; simpl; intros; try contradiction; try discriminate; try lia.
+  destruct i; discriminate.
+Qed.
+
+Lemma inv1_tick c s d : Inv1 c s -> Inv1 c (fst (step c s (Tick d))).
+Proof.
+  intros [P D IC QC CA RU J I Q]. constructor; simpl; try assumption.
+  - intros k e He. destruct (IC k e He) as [A [B C]]. repeat split; try assumption. lia.
+  - intros ks e He. destruct (QC ks e He) as [A [B C]]. repeat split; try assumption. lia.
+  - intros x Hx. unfold cached_of in *. simpl in Hx. apply CA in Hx. lia.
+  - intros i ch k e Hi Hn He Ht Hs Hl. apply (I i ch k e); try assumption. lia.
+  - intros Ion i ch ks e k n Hi Hn He Hin Ht Hs Hl. apply (Q Ion i ch ks e k n); try assumption. lia.
+Qed.
+
+Lemma inv1_write c s ws : cfg_facts c -> Inv0 c s -> Inv1 c s -> Inv1 c (fst (step c s (Write ws))).
+Proof.
+  intros F I0 [P D IC QC CA RU J I Q]. pose proof (cf_wtick c F) as W.
+  assert (Hnew : forall ch, In ch (map (mkCh (s_now s + c_wtick c)) ws) -> ch_ts ch = s_now s + c_wtick c).
+  { intros ch Hin. apply in_map_iff in Hin as [x [<- _]]. reflexivity. }
+  constructor; simpl.
+  - intros ch Hin. apply in_app_or in Hin as [Hin|Hin]; [apply P; exact Hin|]. rewrite (Hnew ch Hin). lia.
+  - rewrite app_length. lia.
+  - intros k e He. destruct (IC k e He) as [A [B C]]. repeat split; try assumption; [lia|].
+    intros j ch Hn Hj. apply nth_app_cases in Hn as [[_ Hn]|[_ Hin]]; [apply (C j); assumption|].
+    rewrite (Hnew ch Hin). lia.
+  - intros ks e He. destruct (QC ks e He) as [A [B C]]. repeat split; try assumption; [lia|].
+    intros Ion k n Hin j ch Hn Hj. apply nth_app_cases in Hn as [[_ Hn]|[_ Hin']]; [apply (C Ion k n Hin j); assumption|].
+    rewrite (Hnew ch Hin'). lia.
+  - intros x Hx. unfold cached_of in *. simpl in Hx. apply CA in Hx. lia.
+  - intros r R. destruct (RU r R) as [A B]. split; [exact A|].
+    intros rest Hdb c' ch Hc' Hch.
+    destruct (i0_run c s I0 r R) as [_ [rest0 Hdb0]].
+    rewrite Hdb0 in Hdb. rewrite <- app_assoc in Hdb. apply app_inv_head in Hdb. subst rest.
+    apply in_app_or in Hch as [Hch|Hch]; [apply (B rest0 Hdb0); assumption|].
+    rewrite (Hnew ch Hch). assert (In c' (s_db s)) by (rewrite Hdb0; apply in_or_app; left; exact Hc').
+    pose proof (i0_ts c s I0 c' H). lia.
+  - intros i ch Hn Hor. apply nth_app_cases in Hn as [[_ Hn]|[_ Hin]]; [apply (J i ch Hn Hor)|].
+    exfalso. rewrite (Hnew ch Hin) in Hor. destruct Hor as [[e [He Hle]]|[x [Hx Hle]]].
+    + destruct (i0_cl c s I0 e He) as [_ [_ [ch0 [Hin0 [E _]]]]]. pose proof (i0_ts c s I0 ch0 Hin0). lia.
+    + unfold cached_of in Hx. simpl in Hx. apply CA in Hx. lia.
+  - intros i ch k e Hi Hn He Ht Hs Hl.
+    rewrite nth_error_app1 in Hn by lia.
+    destruct (IC k e He) as [A [B _]].
+    destruct (N.lt_ge_cases (s_now s) (ie_exp e)) as [Hlive|Hdead]; [|lia].
+    apply (I i ch k e); assumption.
+  - intros Ion i ch ks e k n Hi Hn He Hin Ht Hs Hl.
+    rewrite nth_error_app1 in Hn by lia.
+    destruct (QC ks e He) as [A [B _]].
+    destruct (N.lt_ge_cases (s_now s) (qe_exp e)) as [Hlive|Hdead].
+    + apply (Q Ion i ch ks e k n); assumption.
+    + (* the entry was already dead before the write *) lia.
+Qed.
+
+Lemma inv1_set_pending c s x :
+  Inv0 c s -> Inv1 c s -> s_run s = None -> (x = 0 \/ exists e, s_cl s = Some e /\ x = cl_lm e) ->
+  Inv1 c (set_run s (Some (RPending x))).
+Proof.
+  intros I0 [P D IC QC CA RU J I Q] R Hx. constructor; simpl; try assumption.
+  - intros y Hy. unfold cached_of in Hy. simpl in Hy. injection Hy as <-.
+    destruct Hx as [->|[e [He ->]]]; [lia|].
+    destruct (i0_cl c s I0 e He) as [_ [_ [ch0 [Hin0 [E _]]]]]. pose proof (i0_ts c s I0 ch0 Hin0). lia.
+  - intros r X; discriminate.
+  - intros i ch Hn [Hcl|[y [Hy Hle]]]; [apply (J i ch Hn); left; exact Hcl|].
+    unfold cached_of in Hy. simpl in Hy. injection Hy as <-.
+    destruct Hx as [->|[e [He ->]]].
+    + apply nth_error_In in Hn. apply P in Hn. lia.
+    + apply (J i ch Hn). left. exists e. split; assumption.
+Qed.
+
+Lemma inv1_spawn c s : Inv0 c s -> Inv1 c s -> Inv1 c (fst (spawn s)).
+Proof.
+  intros I0 I1. destruct (spawn_cases s) as [E|[R [x [E Hx]]]]; rewrite E; simpl; [exact I1|].
+  apply inv1_set_pending; assumption.
+Qed.
+
+Lemma inv1_read c s : Inv0 c s -> Inv1 c s -> Inv1 c (fst (step c s InvRead)).
+Proof.
+  intros I0 I1. simpl. destruct (s_run s) as [[x|r]|] eqn:R; simpl; try exact I1.
+  destruct I1 as [P D IC QC CA RU J I Q]. constructor; simpl; try assumption.
+  - intros y Hy. unfold cached_of in Hy. simpl in Hy. injection Hy as <-. apply CA. unfold cached_of. rewrite R. reflexivity.
+  - intros r X. injection X as <-. simpl. split; [exact D|].
+    intros rest Hdb c' ch _ Hch. rewrite <- (app_nil_r (s_db s)) in Hdb at 1. apply app_inv_head in Hdb. subst rest. contradiction.
+  - intros i ch Hn [Hcl|[y [Hy Hle]]]; [apply (J i ch Hn); left; exact Hcl|].
+    unfold cached_of in Hy. simpl in Hy. injection Hy as <-.
+    apply (J i ch Hn). right. exists x. split; [unfold cached_of; rewrite R; reflexivity | exact Hle].
+Qed.
+
+Lemma inv1_caches c s ic' qc' :
+  cfg_facts c -> Inv1 c s ->
+  (forall k e, iget k ic' = Some e ->
+     iget k (s_ic s) = Some e \/ exists j, e = fresh_ent c (s_now s) (length (s_db s)) j) ->
+  (forall ks e, qget ks qc' = Some e ->
+     qget ks (s_qc s) = Some e \/
+     (exists jq, qe_lm e = s_now s /\ qe_exp e = s_now s + c_qttl c + jext (c_qttl c) (c_jit c) jq) /\
+     (c_ion c = false -> forall k n, In (k, n) (qe_src e) -> n = length (s_db s))) ->
+  Inv1 c (mkSt (s_now s) (s_db s) ic' qc' (s_cl s) (s_mk s) (s_run s) (s_done s)).
+Proof.
+  intros F [P D IC QC CA RU J I Q] Hic Hqc. pose proof (cf_jit c F) as Jit.
+  constructor; simpl; try assumption.
+  - intros k e He. apply Hic in He as [He|[j ->]]; [apply (IC k e He)|].
+    unfold fresh_ent; simpl. rewrite Jit, jext_zero. repeat split; try lia.
+    intros j0 ch Hn Hj. assert (nth_error (s_db s) j0 = None) by (apply nth_error_None; exact Hj). congruence.
+  - intros ks e He. apply Hqc in He as [He|[[jq [A B]] C]]; [apply (QC ks e He)|].
+    rewrite Jit, jext_zero in B. repeat split; try lia.
+    intros Ion k n Hin j ch Hn Hj. rewrite (C Ion k n Hin) in Hj.
+    assert (nth_error (s_db s) j = None) by (apply nth_error_None; exact Hj). congruence.
+  - intros i ch k e Hi Hn He Ht Hs Hl. apply Hic in He as [He|[j ->]]; [apply (I i ch k e); assumption|].
+    simpl in Hs. lia.
+  - intros Ion i ch ks e k n Hi Hn He Hin Ht Hs Hl. apply Hqc in He as [He|[_ C]].
+    + apply (Q Ion i ch ks e k n); assumption.
+    + rewrite (C Ion k n Hin) in Hs. lia.
+Qed.
+
+Lemma inv1_request c s keys st jq jis :
+  cfg_facts c -> Inv0 c s -> Inv1 c s -> Inv1 c (fst (step c s (Request keys st jq jis))).
+Proof.
+  intros F I0 I1. simpl.
+  destruct (determine c s) as [tinv trig].
+  assert (Hs1 : Inv1 c (fst (if trig then spawn s else (s, false)))).
+  { destruct trig; [apply inv1_spawn; assumption | exact I1]. }
+  assert (Hsame : forall s1, s1 = fst (if trig then spawn s else (s, false)) ->
+            s_now s1 = s_now s /\ s_db s1 = s_db s /\ s_ic s1 = s_ic s /\ s_qc s1 = s_qc s /\
+            s_cl s1 = s_cl s /\ s_mk s1 = s_mk s /\ s_done s1 = s_done s).
+  { intros s1 ->. destruct trig; [apply spawn_same | repeat split; reflexivity]. }
+  destruct (if trig then spawn s else (s, false)) as [s1 spawned] eqn:E1. simpl in Hs1.
+  destruct (Hsame s1 eq_refl) as [A [B [C [D [E [G H]]]]]].
+  match goal with |- context [match ?h with Some _ => _ | None => _ end] => destruct h as [e|] end.
+  - simpl. exact Hs1.
+  - destruct (iter_reads c (s_now s) (length (s_db s)) (s_mk s) st jis (s_ic s) keys) as [ic' res] eqn:R. simpl.
+    apply iter_reads_cases in R as [R1 [R2 R3]].
+    rewrite <- A, <- B, <- E, <- G, <- H.
+    apply inv1_caches; [exact F | exact Hs1 | |].
+    + intros k e0 He. rewrite A, B, C. apply R1; exact He.
+    + intros ks e0 He. rewrite D. destruct (c_qon c) eqn:Qon; [|left; exact He].
+      unfold qget in He. apply (aget_aset_cases qkey_eqb qkey_eqb_spec) in He as [[-> ->]|[_ He]]; [|left; exact He].
+      right. simpl. split; [exists jq; rewrite A; split; reflexivity|].
+      intros Ion k n Hin. apply res_src_in in Hin as [h Hin]. apply R2 in Hin as [->|[Ion' _]]; [rewrite B; reflexivity | congruence].
+Qed.
+
+(* ------------------------------------------------------------------------------------------ *)
+(* Facts about the page, the window and the markers, for the finish step                       *)
+
+Lemma sorted_app_le (l1 l2 : list change) x :
+  StronglySorted tsle (l1 ++ x :: l2) -> forall y, In y l1 -> ch_ts y <= ch_ts x.
+Proof.
+  induction l1 as [|a l1 IH]; intros Hs y Hin; [contradiction|].
+  simpl in Hs. apply StronglySorted_inv in Hs as [Hs Hall]. destruct Hin as [<-|Hin].
+  - rewrite Forall_forall in Hall. apply (Hall x). apply in_or_app. right; left; reflexivity.
+  - apply IH; assumption.
+Qed.
+
+(* a non-empty page starts with the LAST change the run saw *)
+Lemma page_newest c (seen : list change) newest page' :
+  firstn (c_page c) (rev seen) = newest :: page' -> exists l, seen = l ++ [newest].
+Proof.
+  intro H. destruct (rev seen) as [|x l] eqn:E.
+  - destruct (c_page c); discriminate.
+  - destruct (c_page c) as [|p]; [discriminate|]. simpl in H. injection H as -> _.
+    exists (rev l). rewrite <- (rev_involutive seen), E. reflexivity.
+Qed.
+
+Lemma page_empty c (seen : list change) : (1 <= c_page c)%nat -> firstn (c_page c) (rev seen) = [] -> seen = [].
+Proof.
+  intros P H. destruct (c_page c) as [|p]; [lia|]. destruct (rev seen) as [|x l] eqn:E; [|discriminate].
+  rewrite <- (rev_involutive seen), E. reflexivity.
+Qed.
+
+Lemma seen_le_newest c (s : state) seen rest newest page' :
+  StronglySorted tsle (s_db s) -> s_db s = seen ++ rest ->
+  firstn (c_page c) (rev seen) = newest :: page' ->
+  forall y, In y seen -> ch_ts y <= ch_ts newest.
+Proof.
+  intros Hs Hdb Hp y Hy. apply page_newest in Hp as [l ->].
+  apply in_app_or in Hy as [Hy|[<-|[]]]; [|lia].
+  rewrite Hdb, <- app_assoc in Hs. simpl in Hs. eapply sorted_app_le; eassumption.
+Qed.
+
+Lemma drop_old_in c f l x : In x l -> In x (drop_old c f l) \/ inwin c f x = false.
+Proof.
+  induction l as [|a l IH]; intro Hin; [contradiction|]. simpl.
+  destruct (inwin c f a) eqn:W.
+  - left. exact Hin.
+  - destruct Hin as [<-|Hin]; [right; exact W | apply IH; exact Hin].
+Qed.
+
+Lemma drop_old_len c f l : (length (drop_old c f l) <= length l)%nat.
+Proof. induction l as [|a l IH]; simpl; [lia|]. destruct (inwin c f a); simpl; lia. Qed.
+
+Lemma drop_old_short c f l :
+  Nat.eqb (length (drop_old c f l)) (length l) = false ->
+  exists o l', l = o :: l' /\ inwin c f o = false.
+Proof.
+  destruct l as [|o l']; simpl; [discriminate|]. destruct (inwin c f o) eqn:W.
+  - simpl. rewrite Nat.eqb_refl. discriminate.
+  - intros _. exists o, l'. split; [reflexivity | exact W].
+Qed.
+
+(* a change the run saw is either among the changes that get markers, or too old for the window *)
+Lemma covered_or_old c (s : state) seen rest i ch :
+  StronglySorted tsle (s_db s) -> s_db s = seen ++ rest ->
+  (i < length seen)%nat -> nth_error (s_db s) i = Some ch ->
+  let rp := rev (firstn (c_page c) (rev seen)) in
+  Nat.eqb (length (drop_old c (s_now s) rp)) (length rp) = false ->
+  In ch (drop_old c (s_now s) rp) \/ ch_ts ch + c_ittl c <= s_now s.
+Proof.
+  intros Hs Hdb Hi Hn rp Hshort.
+  assert (Erp : rp = skipn (length seen - c_page c) seen).
+  { unfold rp. rewrite firstn_rev, rev_involutive. reflexivity. }
+  set (d := (length seen - c_page c)%nat) in *.
+  assert (Hn' : nth_error seen i = Some ch).
+  { rewrite Hdb, nth_error_app1 in Hn by exact Hi. exact Hn. }
+  destruct (Nat.le_gt_cases d i) as [Hdi|Hid].
+  - assert (In ch rp).
+    { rewrite Erp. apply (nth_error_In _ (i - d)). rewrite nth_skipn. replace (d + (i - d))%nat with i by lia. exact Hn'. }
+    destruct (drop_old_in c (s_now s) rp ch H) as [X|X]; [left; exact X|].
+    right. unfold inwin in X. apply N.ltb_ge in X. exact X.
+  - right. apply drop_old_short in Hshort as [o [l' [El W]]].
+    assert (Ho : nth_error seen d = Some o).
+    { pose proof (nth_skipn seen d 0) as X. rewrite <- Erp, El in X. simpl in X. rewrite Nat.add_0_r in X. symmetry; exact X. }
+    assert (Ho' : nth_error (s_db s) d = Some o).
+    { rewrite Hdb, nth_error_app1; [exact Ho|]. apply nth_error_Some. congruence. }
+    pose proof (sorted_idx (s_db s) Hs i d ch o (Nat.lt_le_incl _ _ Hid) Hn Ho') as Hle.
+    unfold inwin in W. apply N.ltb_ge in W. lia.
+Qed.
+
+Definition dom (c : cfg) (f : N) (mk : list (mkey * ment)) : Prop :=
+  forall m e, mget m mk = Some e -> me_lm e <= f /\ me_exp e <= f + mk_ttl c m.
+
+Lemma mk_le_trans a b d : mk_le a b -> mk_le b d -> mk_le a d.
+Proof.
+  intros H1 H2 m e He. destruct (H1 m e He) as [e1 [A [B C]]]. destruct (H2 m e1 A) as [e2 [D [E G]]].
+  exists e2. split; [exact D | lia].
+Qed.
+
+Lemma mk_le_aset c f mk m0 :
+  dom c f mk -> mk_le mk (aset mkey_eqb m0 (mkME f (f + mk_ttl c m0)) mk) /\
+                dom c f (aset mkey_eqb m0 (mkME f (f + mk_ttl c m0)) mk).
+Proof.
+  intro D. split.
+  - intros m e He. destruct (mkey_eqb m m0) eqn:E.
+    + apply mkey_eqb_spec in E; subst m0. exists (mkME f (f + mk_ttl c m)). split.
+      * apply (aget_aset_same mkey_eqb mkey_eqb_spec).
+      * simpl. apply D in He. lia.
+    + exists e. split; [|lia]. unfold mget. rewrite (aget_aset_other mkey_eqb mkey_eqb_spec); [exact He|].
+      intro X; subst. rewrite (proj2 (mkey_eqb_spec m0 m0) eq_refl) in E. discriminate.
+  - intros m e He. unfold mget in He.
+    apply (aget_aset_cases mkey_eqb mkey_eqb_spec) in He as [[-> ->]|[_ He]]; simpl; [lia | apply D; exact He].
+Qed.
+
+Lemma mk_le_fold c f ms mk :
+  dom c f mk -> (forall m, In m ms -> mk_ttl c m = c_ittl c) ->
+  mk_le mk (fold_left (fun acc m0 => aset mkey_eqb m0 (mkME f (f + c_ittl c)) acc) ms mk) /\
+  dom c f (fold_left (fun acc m0 => aset mkey_eqb m0 (mkME f (f + c_ittl c)) acc) ms mk).
+Proof.
+  revert mk. induction ms as [|m0 ms IH]; intros mk D Hms; simpl.
+  - split; [apply mk_le_refl | exact D].
+  - rewrite <- (Hms m0 (or_introl eq_refl)). destruct (mk_le_aset c f mk m0 D) as [A B].
+    assert (Hms' : forall m, In m ms -> mk_ttl c m = c_ittl c) by (intros m Hm; apply Hms; right; exact Hm).
+    rewrite (Hms m0 (or_introl eq_refl)) in *.
+    destruct (IH _ B Hms') as [A' B']. split; [eapply mk_le_trans; eassumption | exact B'].
+Qed.
+
+Lemma mk_le_set_markers c f recent mk :
+  dom c f mk -> mk_le mk (fold_left (set_markers c f) recent mk) /\ dom c f (fold_left (set_markers c f) recent mk).
+Proof.
+  revert mk. induction recent as [|ch recent IH]; intros mk D; simpl.
+  - split; [apply mk_le_refl | exact D].
+  - destruct (mk_le_fold c f (markers_of_write (ch_tup ch)) mk D (markers_of_write_ttl c (ch_tup ch))) as [A B].
+    destruct (IH _ B) as [A' B']. split; [eapply mk_le_trans; eassumption | exact B'].
+Qed.
+
+Lemma inv0_dom c s : Inv0 c s -> dom c (s_now s) (s_mk s).
+Proof. intros I0 m e He. destruct (i0_mk c s I0 m e He) as [A B]. lia. Qed.
+
+Lemma inv1_finish_frame c s r cl' mk' :
+  Inv1 c s -> s_run s = Some (RRead r) -> (length (r_seen r) <= length (s_db s))%nat ->
+  let done' := Nat.max (s_done s) (length (r_seen r)) in
+  (forall i ch, nth_error (s_db s) i = Some ch -> (exists e, cl' = Some e /\ ch_ts ch <= cl_lm e) -> (i < done')%nat) ->
+  (forall i ch k e, (i < done')%nat -> nth_error (s_db s) i = Some ch ->
+     iget k (s_ic s) = Some e -> touches (ch_tup ch) k = true -> (ie_snap e <= i)%nat -> s_now s < ie_exp e ->
+     exists m me, In m (MStore :: markers_of_key k) /\ mget m mk' = Some me /\
+                  ie_lm e < me_lm me /\ ie_exp e <= me_exp me) ->
+  (c_ion c = false -> forall i ch ks e k n, (i < done')%nat -> nth_error (s_db s) i = Some ch ->
+     qget ks (s_qc s) = Some e -> In (k, n) (qe_src e) -> touches (ch_tup ch) k = true ->
+     (n <= i)%nat -> s_now s < qe_exp e ->
+     exists cl, cl' = Some cl /\ qe_lm e <= cl_lm cl /\ qe_exp e <= cl_exp cl) ->
+  Inv1 c (mkSt (s_now s) (s_db s) (s_ic s) (s_qc s) cl' mk' None done').
+Proof.
+  intros [P D IC QC CA RU J I Q] R Hlen done' HJ HI HQ. constructor; simpl; try assumption.
+  - unfold done'. lia.
+  - intros x X; discriminate.
+  - intros r0 X; discriminate.
+  - intros i ch Hn [Hcl|[x [X _]]]; [apply (HJ i ch Hn Hcl) | discriminate].
+Qed.
+
+Lemma inv1_finish c s r :
+  cfg_facts c -> Inv0 c s -> Inv1 c s -> s_run s = Some (RRead r) -> Inv1 c (fst (finish c s r)).
+Proof.
+  intros F I0 I1 R.
+  destruct (i0_run c s I0 r R) as [Hpage [rest Hdb]].
+  destruct (i1_run c s I1 r R) as [Hdone Hstrict]. specialize (Hstrict rest Hdb).
+  pose proof (i0_sorted c s I0) as Hsorted.
+  assert (Hlen : (length (r_seen r) <= length (s_db s))%nat) by (rewrite Hdb, app_length; lia).
+  assert (Hseen : forall i ch, (i < length (r_seen r))%nat -> nth_error (s_db s) i = Some ch -> In ch (r_seen r)).
+  { intros i ch Hi Hn. rewrite Hdb, nth_error_app1 in Hn by exact Hi. eapply nth_error_In; exact Hn. }
+  assert (Hmax : forall i, (i < Nat.max (s_done s) (length (r_seen r)))%nat -> (i < length (r_seen r))%nat) by (intros; lia).
+  unfold finish. destruct (r_page r) as [|newest page'] eqn:Pg.
+  - (* ReadChanges error: the run saw an empty changelog *)
+    assert (Es : r_seen r = []) by (apply (page_empty c); [apply (cf_page c F) | rewrite <- Hpage; reflexivity]).
+    simpl. apply inv1_finish_frame; try assumption.
+    + intros i ch Hn Hcl. rewrite Es in Hmax |- *. simpl. rewrite Nat.max_0_r.
+      apply (i1_J c s I1 i ch Hn). left; exact Hcl.
+    + intros i ch k e Hi Hn He Ht Hs Hl. rewrite Es in Hi. simpl in Hi. rewrite Nat.max_0_r in Hi.
+      destruct (i1_Ic c s I1 i ch k e Hi Hn He Ht Hs Hl) as [m [me [A [B [C D]]]]].
+      destruct (mk_le_aset c (s_now s) (s_mk s) MStore (inv0_dom c s I0)) as [Hle _].
+      destruct (Hle m me B) as [me' [A' [B' C']]]. exists m, me'. repeat split; try assumption; lia.
+    + intros Ion i ch ks e k n Hi. rewrite Es in Hi. simpl in Hi. rewrite Nat.max_0_r in Hi.
+      apply (i1_Qc c s I1 Ion i ch ks e k n Hi).
+  - assert (Hnew_in : In newest (r_seen r)).
+    { apply (page_in_seen c r); [rewrite Pg; exact Hpage | rewrite Pg; left; reflexivity]. }
+    assert (Hle_new : forall y, In y (r_seen r) -> ch_ts y <= ch_ts newest).
+    { apply (seen_le_newest c s (r_seen r) rest newest page'); try assumption. rewrite <- Hpage. reflexivity. }
+    (* facts shared by all four outcomes: J and Qclean for the new changelog entry *)
+    assert (HJ : forall i ch, nth_error (s_db s) i = Some ch ->
+              (exists e, Some (mkCL (ch_ts newest) (s_now s) (s_now s + c_qttl c)) = Some e /\ ch_ts ch <= cl_lm e) ->
+              (i < Nat.max (s_done s) (length (r_seen r)))%nat).
+    { intros i ch Hn [e [He Hts]]. injection He as <-. simpl in Hts.
+      rewrite Hdb in Hn. apply nth_app_cases in Hn as [[Hi _]|[_ Hin]]; [lia|].
+      pose proof (Hstrict newest ch Hnew_in Hin). lia. }
+    assert (HQ : c_ion c = false -> forall i ch ks e k n, (i < Nat.max (s_done s) (length (r_seen r)))%nat ->
+              nth_error (s_db s) i = Some ch -> qget ks (s_qc s) = Some e -> In (k, n) (qe_src e) ->
+              touches (ch_tup ch) k = true -> (n <= i)%nat -> s_now s < qe_exp e ->
+              exists cl, Some (mkCL (ch_ts newest) (s_now s) (s_now s + c_qttl c)) = Some cl /\
+                         qe_lm e <= cl_lm cl /\ qe_exp e <= cl_exp cl).
+    { intros Ion i ch ks e k n Hi Hn He Hin Ht Hs Hl. eexists. split; [reflexivity|]. simpl.
+      destruct (i1_qc c s I1 ks e He) as [A [B C]]. specialize (C Ion k n Hin i ch Hn Hs).
+      pose proof (Hle_new ch (Hseen i ch (Hmax i Hi) Hn)). lia. }
+    destruct (ch_ts newest <=? r_cached r) eqn:Cmp.
+    + (* no new change: everything the run saw was already covered *)
+      simpl. apply inv1_finish_frame; try assumption.
+      intros i ch k e Hi Hn He Ht Hs Hl.
+      assert (Hi' : (i < s_done s)%nat).
+      { apply (i1_J c s I1 i ch Hn). right. exists (r_cached r). split; [unfold cached_of; rewrite R; reflexivity|].
+        apply N.leb_le in Cmp. pose proof (Hle_new ch (Hseen i ch (Hmax i Hi) Hn)). lia. }
+      apply (i1_Ic c s I1 i ch k e Hi' Hn He Ht Hs Hl).
+    + assert (Hent : forall i ch k e, (i < Nat.max (s_done s) (length (r_seen r)))%nat ->
+                nth_error (s_db s) i = Some ch -> iget k (s_ic s) = Some e -> (ie_snap e <= i)%nat ->
+                ie_exp e = ie_lm e + c_ittl c /\ ie_lm e < ch_ts ch /\ ch_ts ch <= s_now s).
+      { intros i ch k e Hi Hn He Hs. destruct (i1_ic c s I1 k e He) as [_ [B C]].
+        repeat split; [exact B | apply (C i ch Hn Hs) | apply (i0_ts c s I0); eapply nth_error_In; exact Hn]. }
+      destruct (Nat.eqb (length (drop_old c (s_now s) (rev (newest :: page')))) (length (rev (newest :: page')))) eqn:Full.
+      * (* full invalidation *)
+        simpl. apply inv1_finish_frame; try assumption.
+        intros i ch k e Hi Hn He Ht Hs Hl. destruct (Hent i ch k e Hi Hn He Hs) as [A [B C]].
+        exists MStore, (mkME (s_now s) (s_now s + c_full c)). split; [|split; [|split]].
+        -- left; reflexivity.
+        -- apply (aget_aset_same mkey_eqb mkey_eqb_spec).
+        -- simpl. lia.
+        -- simpl. pose proof (cf_full c F). lia.
+      * (* partial or nothing in the window *)
+        assert (Hcov : forall i ch, (i < Nat.max (s_done s) (length (r_seen r)))%nat -> nth_error (s_db s) i = Some ch ->
+                  In ch (drop_old c (s_now s) (rev (newest :: page'))) \/ ch_ts ch + c_ittl c <= s_now s).
+        { intros i ch Hi Hn. rewrite Hpage in Full |- *.
+          apply (covered_or_old c s (r_seen r) rest i ch Hsorted Hdb (Hmax i Hi) Hn). exact Full. }
+        destruct (drop_old c (s_now s) (rev (newest :: page'))) as [|ch0 rec'] eqn:Drop.
+        -- simpl. apply inv1_finish_frame; try assumption.
+           intros i ch k e Hi Hn He Ht Hs Hl. destruct (Hent i ch k e Hi Hn He Hs) as [A [B C]].
+           destruct (Hcov i ch Hi Hn) as [[]|Hold]. lia.
+        -- cbn [fst]. apply inv1_finish_frame; try assumption.
+           intros i ch k e Hi Hn He Ht Hs Hl. destruct (Hent i ch k e Hi Hn He Hs) as [A [B C]].
+           destruct (Hcov i ch Hi Hn) as [Hin|Hold]; [|lia].
+           destruct (touch_covered _ _ Ht) as [m [Hm1 Hm2]].
+           exists m, (mkME (s_now s) (s_now s + c_ittl c)). split; [|split; [|split]].
+           ++ right; exact Hm2.
+           ++ apply (mget_in_set_markers c (s_now s) (ch0 :: rec') (s_mk s) m ch Hin Hm1).
+           ++ simpl. lia.
+           ++ simpl. lia.
+Qed.
+
+Lemma inv1_step c s o : cfg_facts c -> Inv0 c s -> Inv1 c s -> Inv1 c (fst (step c s o)).
+Proof.
+  intros F I0 I1. destruct o as [ws|keys st jq jis| | | |d].
+  - apply inv1_write; assumption.
+  - apply inv1_request; assumption.
+  - simpl. destruct (spawn s) as [s1 b] eqn:E. simpl. change s1 with (fst (s1, b)). rewrite <- E.
+    apply inv1_spawn; assumption.
+  - apply inv1_read; assumption.
+  - simpl. destruct (s_run s) as [[x|r]|] eqn:R; simpl; try exact I1.
+    destruct (finish c s r) as [s1 d] eqn:E. simpl. change s1 with (fst (s1, d)). rewrite <- E.
+    apply inv1_finish; assumption.
+  - apply inv1_tick; assumption.
+Qed.
+
+Lemma inv_run c h : cfg_facts c -> forall s, Inv0 c s -> Inv1 c s ->
+  Inv0 c (run_ops c h s) /\ Inv1 c (run_ops c h s).
+Proof.
+  intro F. induction h as [|o h IH]; intros s I0 I1; simpl; [split; assumption|].
+  apply IH; [apply inv0_step; exact I0 | apply inv1_step; assumption].
+Qed.
+
+Lemma inv0_run c h : forall s, Inv0 c s -> Inv0 c (run_ops c h s).
+Proof. induction h as [|o h IH]; intros s I0; simpl; [exact I0|]. apply IH. apply inv0_step; exact I0. Qed.
+
+(* ------------------------------------------------------------------------------------------ *)
+(* The answer of a request in a state that satisfies the invariant                             *)
+
+Lemma invalid_at_marker mk now ts k m me :
+  In m (MStore :: markers_of_key k) -> mget m mk = Some me -> now < me_exp me -> ts < me_lm me ->
+  invalid_at mk now ts k = true.
+Proof.
+  intros Hin Hg Hl Ht. unfold invalid_at. apply existsb_exists. exists m. split; [exact Hin|].
+  unfold mget in Hg. rewrite Hg. apply andb_true_iff. split; apply N.ltb_lt; assumption.
+Qed.
+
+Lemma answer_fresh c s keys st jq jis i :
+  cfg_facts c -> Inv1 c s -> (i < s_done s)%nat ->
+  fresh_at (s_db s) i (out_src (snd (step c s (Request keys st jq jis)))).
+Proof.
+  intros F I1 Hi ch Hn k n Hin Ht. simpl in Hin.
+  destruct (determine c s) as [tinv trig] eqn:Det.
+  destruct (if trig then spawn s else (s, false)) as [s1 spawned].
+  destruct (Nat.lt_ge_cases i n) as [Hlt|Hge]; [exact Hlt|exfalso].
+  destruct (c_qon c) eqn:Qon.
+  - (* query cache on, hence iterator cache off *)
+    assert (Ion : c_ion c = false).
+    { pose proof (cf_single c F) as X. rewrite Qon in X. simpl in X. exact X. }
+    destruct (aget qkey_eqb keys (s_qc s)) as [e|] eqn:G.
+    + destruct ((s_now s <? qe_exp e) && (tinv <? qe_lm e)) eqn:V.
+      * simpl in Hin. apply andb_true_iff in V as [V1 V2]. apply N.ltb_lt in V1. apply N.ltb_lt in V2.
+        destruct (i1_Qc c s I1 Ion i ch keys e k n Hi Hn G Hin Ht Hge V1) as [cl [Hcl [A B]]].
+        unfold determine, cl_live in Det. rewrite Hcl in Det.
+        assert (L : s_now s <? cl_exp cl = true) by (apply N.ltb_lt; lia). rewrite L in Det.
+        injection Det as <- _. lia.
+      * destruct (iter_reads c (s_now s) (length (s_db s)) (s_mk s) st jis (s_ic s) keys) as [ic' res] eqn:R.
+        simpl in Hin. apply iter_reads_cases in R as [_ [R2 _]].
+        apply res_src_in in Hin as [h Hin]. apply R2 in Hin as [->|[Ion' _]]; [|congruence].
+        pose proof (i1_done c s I1). lia.
+    + destruct (iter_reads c (s_now s) (length (s_db s)) (s_mk s) st jis (s_ic s) keys) as [ic' res] eqn:R.
+      simpl in Hin. apply iter_reads_cases in R as [_ [R2 _]].
+      apply res_src_in in Hin as [h Hin]. apply R2 in Hin as [->|[Ion' _]]; [|congruence].
+      pose proof (i1_done c s I1). lia.
+  - destruct (iter_reads c (s_now s) (length (s_db s)) (s_mk s) st jis (s_ic s) keys) as [ic' res] eqn:R.
+    simpl in Hin. apply iter_reads_cases in R as [_ [R2 _]].
+    apply res_src_in in Hin as [h Hin]. apply R2 in Hin as [->|[_ [e [[G [L V]] ->]]]].
+    + pose proof (i1_done c s I1). lia.
+    + destruct (i1_Ic c s I1 i ch k e Hi Hn G Ht Hge L) as [m [me [A [B [C D]]]]].
+      rewrite (invalid_at_marker (s_mk s) (s_now s) (ie_lm e) k m me A B) in V; [discriminate | lia | exact C].
+Qed.
+
+Lemma staleness_ghost c h :
+  cfg_ok c = true ->
+  let s := run_ops c h init_state in
+  forall i, (i < s_done s)%nat ->
+  forall keys st jq jis, fresh_at (s_db s) i (out_src (snd (step c s (Request keys st jq jis)))).
+Proof.
+  intros Ok s i Hi keys st jq jis. apply cfg_ok_facts in Ok.
+  destruct (inv_run c h Ok init_state (inv0_init c) (inv1_init c)) as [_ I1].
+  apply answer_fresh; assumption.
+Qed.
+
+(* ------------------------------------------------------------------------------------------ *)
+(* From the ghost counter to a statement about the history itself                              *)
+
+Lemma run_ops_app c h1 h2 s : run_ops c (h1 ++ h2) s = run_ops c h2 (run_ops c h1 s).
+Proof. unfold run_ops. apply fold_left_app. Qed.
+
+Lemma spawn_run_cases s :
+  s_run (fst (spawn s)) = s_run s \/ (s_run s = None /\ exists x, s_run (fst (spawn s)) = Some (RPending x)).
+Proof.
+  destruct (spawn_cases s) as [E|[R [x [E _]]]]; rewrite E; simpl; [left; reflexivity|].
+  right. split; [exact R|]. exists x. reflexivity.
+Qed.
+
+Lemma finish_fields c s r :
+  s_db (fst (finish c s r)) = s_db s /\
+  s_done (fst (finish c s r)) = Nat.max (s_done s) (length (r_seen r)) /\
+  s_run (fst (finish c s r)) = None.
+Proof.
+  unfold finish. destruct (r_page r) as [|newest page']; [simpl; repeat split|].
+  destruct (ch_ts newest <=? r_cached r); [simpl; repeat split|].
+  destruct (Nat.eqb _ _); [simpl; repeat split|].
+  destruct (drop_old c (s_now s) (rev (newest :: page'))); cbn [fst s_db s_done s_run]; repeat split.
+Qed.
+
+Lemma request_fields c s keys st jq jis :
+  let s' := fst (step c s (Request keys st jq jis)) in
+  s_db s' = s_db s /\ s_done s' = s_done s /\
+  (s_run s' = s_run s \/ (s_run s = None /\ exists x, s_run s' = Some (RPending x))).
+Proof.
+  simpl. destruct (determine c s) as [tinv trig].
+  assert (X : let s1 := fst (if trig then spawn s else (s, false)) in
+              s_db s1 = s_db s /\ s_done s1 = s_done s /\
+              (s_run s1 = s_run s \/ (s_run s = None /\ exists x, s_run s1 = Some (RPending x)))).
+  { destruct trig; simpl; [|repeat split; left; reflexivity].
+    destruct (spawn_same s) as [_ [B [_ [_ [_ [_ D]]]]]]. repeat split; try assumption. apply spawn_run_cases. }
+  destruct (if trig then spawn s else (s, false)) as [s1 spawned]. simpl in X.
+  match goal with |- context [match ?h with Some _ => _ | None => _ end] => destruct h as [e|] end.
+  - simpl. exact X.
+  - destruct (iter_reads c (s_now s) (length (s_db s)) (s_mk s) st jis (s_ic s) keys) as [ic' res]. simpl.
+    destruct X as [_ [_ X]]. repeat split. exact X.
+Qed.
+
+Lemma step_db_done c s o :
+  (exists rest, s_db (fst (step c s o)) = s_db s ++ rest) /\ (s_done s <= s_done (fst (step c s o)))%nat.
+Proof.
+  destruct o as [ws|keys st jq jis| | | |d].
+  - simpl. split; [eexists; reflexivity | lia].
+  - destruct (request_fields c s keys st jq jis) as [A [B _]]. rewrite A, B.
+    split; [exists []; rewrite app_nil_r; reflexivity | lia].
+  - simpl. destruct (spawn s) as [s1 b] eqn:E. simpl.
+    destruct (spawn_same s) as [_ [B [_ [_ [_ [_ D]]]]]]. rewrite E in B, D. simpl in B, D. rewrite B, D.
+    split; [exists []; rewrite app_nil_r; reflexivity | lia].
+  - simpl. destruct (s_run s) as [[x|r]|]; simpl; (split; [exists []; rewrite app_nil_r; reflexivity | lia]).
+  - simpl. destruct (s_run s) as [[x|r]|]; simpl; try (split; [exists []; rewrite app_nil_r; reflexivity | lia]).
+    destruct (finish c s r) as [s1 d] eqn:E. simpl.
+    destruct (finish_fields c s r) as [A [B _]]. rewrite E in A, B. simpl in A, B. rewrite A, B.
+    split; [exists []; rewrite app_nil_r; reflexivity | lia].
+  - simpl. split; [exists []; rewrite app_nil_r; reflexivity | lia].
+Qed.
+
+Lemma run_db_done c h : forall s,
+  (exists rest, s_db (run_ops c h s) = s_db s ++ rest) /\ (s_done s <= s_done (run_ops c h s))%nat.
+Proof.
+  induction h as [|o h IH]; intro s; simpl.
+  - split; [exists []; rewrite app_nil_r; reflexivity | lia].
+  - destruct (IH (fst (step c s o))) as [[r1 A] B]. destruct (step_db_done c s o) as [[r2 C] D].
+    split; [|lia]. exists (r2 ++ r1). rewrite A, C, app_assoc. reflexivity.
+Qed.
+
+Lemma step_keeps_read c s o r :
+  s_run s = Some (RRead r) -> (match o with InvFinish => false | _ => true end) = true ->
+  s_run (fst (step c s o)) = Some (RRead r).
+Proof.
+  intros R Ho. destruct o as [ws|keys st jq jis| | | |d]; try discriminate.
+  - simpl. exact R.
+  - destruct (request_fields c s keys st jq jis) as [_ [_ [A|[A _]]]]; [rewrite A; exact R | congruence].
+  - simpl. destruct (spawn s) as [s1 b] eqn:E. simpl.
+    destruct (spawn_run_cases s) as [A|[A _]]; [rewrite E in A; simpl in A; rewrite A; exact R | congruence].
+  - simpl. rewrite R. simpl. exact R.
+  - simpl. exact R.
+Qed.
+
+Lemma run_keeps_read c h : forall s r,
+  s_run s = Some (RRead r) -> no_finish h = true -> s_run (run_ops c h s) = Some (RRead r).
+Proof.
+  induction h as [|o h IH]; intros s r R Hn; simpl; [exact R|].
+  simpl in Hn. apply andb_true_iff in Hn as [Ho Hn]. apply IH; [|exact Hn].
+  apply step_keeps_read; assumption.
+Qed.
+
+Lemma staleness_bounded_lemma :
+  forall (c : cfg) (h1 : list op) (ws : list tup) (h2 h3 h4 : list op),
+  cfg_ok c = true ->
+  let sW := run_ops c (h1 ++ [Write ws]) init_state in
+  let sA := run_ops c (h1 ++ [Write ws] ++ h2) init_state in
+  (exists x, s_run sA = Some (RPending x)) ->
+  no_finish h3 = true ->
+  let s := run_ops c (h1 ++ [Write ws] ++ h2 ++ [InvRead] ++ h3 ++ [InvFinish] ++ h4) init_state in
+  firstn (length (s_db sW)) (s_db s) = s_db sW /\
+  forall i, (i < length (s_db sW))%nat ->
+  forall keys st jq jis, fresh_at (s_db s) i (out_src (snd (step c s (Request keys st jq jis)))).
+Proof.
+  intros c h1 ws h2 h3 h4 Ok sW sA [x Hpend] Hnf s.
+  assert (EA : sA = run_ops c h2 sW).
+  { unfold sA, sW. rewrite app_assoc. apply run_ops_app. }
+  assert (ES : s = run_ops c h4 (fst (step c (run_ops c h3 (fst (step c sA InvRead))) InvFinish))).
+  { unfold s, sA. rewrite !app_assoc. rewrite run_ops_app. f_equal.
+    rewrite run_ops_app. simpl. f_equal. f_equal. rewrite run_ops_app. f_equal.
+    rewrite run_ops_app. simpl. rewrite <- !app_assoc. reflexivity. }
+  set (sB := fst (step c sA InvRead)) in *.
+  set (sC := run_ops c h3 sB) in *.
+  set (sD := fst (step c sC InvFinish)) in *.
+  set (r := mkRun x (firstn (c_page c) (rev (s_db sA))) (s_db sA)).
+  assert (RB : s_run sB = Some (RRead r)).
+  { unfold sB. simpl. rewrite Hpend. reflexivity. }
+  assert (RC : s_run sC = Some (RRead r)) by (apply run_keeps_read; assumption).
+  assert (DD : (length (s_db sA) <= s_done sD)%nat).
+  { unfold sD. simpl. rewrite RC. destruct (finish c sC r) as [s1 d] eqn:E. simpl.
+    destruct (finish_fields c sC r) as [_ [B _]]. rewrite E in B. simpl in B. rewrite B. simpl. lia. }
+  destruct (run_db_done c h2 sW) as [[r1 P1] _]. rewrite <- EA in P1.
+  destruct (step_db_done c sA InvRead) as [[r2 P2] _]. fold sB in P2.
+  destruct (run_db_done c h3 sB) as [[r3 P3] _]. fold sC in P3.
+  destruct (step_db_done c sC InvFinish) as [[r4 P4] _]. fold sD in P4.
+  destruct (run_db_done c h4 sD) as [[r5 P5] M5]. rewrite <- ES in P5, M5.
+  split.
+  - rewrite P5, P4, P3, P2, P1, <- !app_assoc.
+    rewrite firstn_app, Nat.sub_diag, firstn_all. simpl. apply app_nil_r.
+  - intros i Hi keys st jq jis. apply staleness_ghost; [exact Ok|].
+    fold s. assert (length (s_db sW) <= length (s_db sA))%nat by (rewrite P1, app_length; lia). lia.
+Qed.
+
+(* ------------------------------------------------------------------------------------------ *)
+(* Invalidation only forces recomputation                                                      *)
+
+Lemma invalid_at_mono mk mk' now ts k :
+  mk_le mk mk' -> invalid_at mk now ts k = true -> invalid_at mk' now ts k = true.
+Proof.
+  intros Hle H. unfold invalid_at in *. apply existsb_exists in H as [m [Hin H]].
+  destruct (aget mkey_eqb m mk) as [e|] eqn:G; [|discriminate].
+  apply andb_true_iff in H as [H1 H2]. apply N.ltb_lt in H1. apply N.ltb_lt in H2.
+  destruct (Hle m e G) as [e' [G' [A B]]]. apply existsb_exists. exists m. split; [exact Hin|].
+  unfold mget in G'. rewrite G'. apply andb_true_iff. split; apply N.ltb_lt; lia.
+Qed.
+
+Lemma inv_monotone_safe_lemma :
+  forall (c : cfg) (s s' : state), more_invalid c s s' ->
+  forall keys st jq jis k n,
+  In (k, n) (out_src (snd (step c s' (Request keys st jq jis)))) ->
+  n = length (s_db s) \/
+  (exists e, i_usable s k e /\ ie_snap e = n) \/
+  (exists e, q_usable c s keys e /\ In (k, n) (qe_src e)).
+Proof.
+  intros c s s' [Hnow [Hdb [Hic [Hqc [Hmk Ht]]]]] keys st jq jis k n Hin. simpl in Hin.
+  unfold inval_time in Ht.
+  destruct (determine c s') as [tinv trig] eqn:Det. simpl in Ht.
+  destruct (if trig then spawn s' else (s', false)) as [s1 spawned].
+  assert (Hreads : forall ic' res, iter_reads c (s_now s') (length (s_db s')) (s_mk s') st jis (s_ic s') keys = (ic', res) ->
+            In (k, n) (res_src res) -> n = length (s_db s) \/ (exists e, i_usable s k e /\ ie_snap e = n)).
+  { intros ic' res R Hr. apply iter_reads_cases in R as [_ [R2 _]].
+    apply res_src_in in Hr as [h Hr]. apply R2 in Hr as [->|[_ [e [[G [L V]] ->]]]]; [left; congruence|].
+    right. exists e. split; [|reflexivity]. repeat split.
+    - apply Hic. exact G.
+    - rewrite <- Hnow. exact L.
+    - destruct (invalid_at (s_mk s) (s_now s) (ie_lm e) k) eqn:I; [|reflexivity].
+      rewrite <- Hnow in I. rewrite (invalid_at_mono _ _ _ _ _ Hmk I) in V. discriminate. }
+  destruct (c_qon c) eqn:Qon.
+  - destruct (aget qkey_eqb keys (s_qc s')) as [e|] eqn:G.
+    + destruct ((s_now s' <? qe_exp e) && (tinv <? qe_lm e)) eqn:V.
+      * simpl in Hin. right. right. exists e. split; [|exact Hin].
+        apply andb_true_iff in V as [V1 V2]. apply N.ltb_lt in V1. apply N.ltb_lt in V2.
+        repeat split; [apply Hqc; exact G | rewrite <- Hnow; exact V1 | unfold inval_time; lia].
+      * destruct (iter_reads c (s_now s') (length (s_db s')) (s_mk s') st jis (s_ic s') keys) as [ic' res] eqn:R.
+        simpl in Hin. destruct (Hreads ic' res eq_refl Hin) as [X|X]; [left; exact X | right; left; exact X].
+    + destruct (iter_reads c (s_now s') (length (s_db s')) (s_mk s') st jis (s_ic s') keys) as [ic' res] eqn:R.
+      simpl in Hin. destruct (Hreads ic' res eq_refl Hin) as [X|X]; [left; exact X | right; left; exact X].
+  - destruct (iter_reads c (s_now s') (length (s_db s')) (s_mk s') st jis (s_ic s') keys) as [ic' res] eqn:R.
+    simpl in Hin. destruct (Hreads ic' res eq_refl Hin) as [X|X]; [left; exact X | right; left; exact X].
+Qed.
+
+Lemma answer_keys c s keys st jq jis :
+  (forall e, q_usable c s keys e -> map fst (qe_src e) = keys) ->
+  map fst (out_src (snd (step c s (Request keys st jq jis)))) = keys.
+Proof.
+  intro Hq. simpl. destruct (determine c s) as [tinv trig] eqn:Det.
+  destruct (if trig then spawn s else (s, false)) as [s1 spawned].
+  assert (Hreads : forall ic' res, iter_reads c (s_now s) (length (s_db s)) (s_mk s) st jis (s_ic s) keys = (ic', res) ->
+            map fst (res_src res) = keys).
+  { intros ic' res R. apply iter_reads_cases in R as [_ [_ R3]]. unfold res_src. rewrite map_map. exact R3. }
+  destruct (c_qon c).
+  - destruct (aget qkey_eqb keys (s_qc s)) as [e|] eqn:G.
+    + destruct ((s_now s <? qe_exp e) && (tinv <? qe_lm e)) eqn:V.
+      * simpl. apply Hq. apply andb_true_iff in V as [V1 V2]. apply N.ltb_lt in V1. apply N.ltb_lt in V2.
+        unfold q_usable, inval_time. rewrite Det. repeat split; assumption.
+      * destruct (iter_reads c (s_now s) (length (s_db s)) (s_mk s) st jis (s_ic s) keys) as [ic' res] eqn:R.
+        simpl. apply (Hreads ic' res eq_refl).
+    + destruct (iter_reads c (s_now s) (length (s_db s)) (s_mk s) st jis (s_ic s) keys) as [ic' res] eqn:R.
+      simpl. apply (Hreads ic' res eq_refl).
+  - destruct (iter_reads c (s_now s) (length (s_db s)) (s_mk s) st jis (s_ic s) keys) as [ic' res] eqn:R.
+    simpl. apply (Hreads ic' res eq_refl).
+Qed.
+
+Lemma more_invalid_q_usable c s s' ks e : more_invalid c s s' -> q_usable c s' ks e -> q_usable c s ks e.
+Proof.
+  intros [Hnow [_ [_ [Hqc [_ Ht]]]]] [A [B C]]. repeat split; [apply Hqc; exact A | rewrite <- Hnow; exact B | lia].
+Qed.
+
+Lemma map_ext_in_ {A B} (f g : A -> B) l : (forall a, In a l -> f a = g a) -> map f l = map g l.
+Proof. induction l as [|a l IH]; intro H; simpl; [reflexivity|]. rewrite H by (left; reflexivity). rewrite IH; [reflexivity|]. intros; apply H; right; assumption. Qed.
+
+Lemma invalidation_correct_lemma :
+  forall (c : cfg) (s s' : state), cache_consistent c s -> more_invalid c s s' ->
+  forall keys st jq jis,
+  answer_views (s_db s') (out_src (snd (step c s' (Request keys st jq jis)))) = uncached_views (s_db s') keys.
+Proof.
+  intros c s s' [Ci Cq] M keys st jq jis.
+  assert (Hdb : s_db s' = s_db s) by (destruct M as [_ [X _]]; exact X).
+  assert (Hk : map fst (out_src (snd (step c s' (Request keys st jq jis)))) = keys).
+  { apply answer_keys. intros e U. apply (more_invalid_q_usable c s s' keys e M) in U. apply (Cq keys e U). }
+  unfold answer_views, uncached_views. rewrite <- Hk at 2. rewrite map_map.
+  apply map_ext_in_. intros [k n] Hin. simpl.
+  destruct (inv_monotone_safe_lemma c s s' M keys st jq jis k n Hin) as [->|[[e [U <-]]|[e [U Hs]]]]; rewrite Hdb.
+  - reflexivity.
+  - apply Ci; exact U.
+  - apply (proj2 (Cq keys e U)); exact Hs.
+Qed.
+
+Lemma more_invalid_refl c s : more_invalid c s s.
+Proof.
+  unfold more_invalid. split; [reflexivity|]. split; [reflexivity|].
+  split; [intros; assumption|]. split; [intros; assumption|]. split; [|lia].
+  intros m e He. exists e. split; [exact He | lia].
+Qed.
+
+Lemma more_invalid_set_run c s r : more_invalid c s (set_run s r).
+Proof.
+  unfold more_invalid, inval_time, determine, cl_live. simpl.
+  split; [reflexivity|]. split; [reflexivity|].
+  split; [intros; assumption|]. split; [intros; assumption|]. split; [|lia].
+  intros m e He. exists e. split; [exact He | lia].
+Qed.
+
+Lemma controller_only_invalidates_step c s o :
+  0 < c_qttl c -> Inv0 c s -> controller_op o = true -> more_invalid c s (fst (step c s o)).
+Proof.
+  intros Q I0 Ho. destruct o as [ws|keys st jq jis| | | |d]; try discriminate; simpl.
+  - destruct (spawn_cases s) as [E|[_ [x [E _]]]]; rewrite E; simpl; [apply more_invalid_refl | apply more_invalid_set_run].
+  - destruct (s_run s) as [[x|r]|]; simpl; try apply more_invalid_refl. apply more_invalid_set_run.
+  - destruct (s_run s) as [[x|r]|] eqn:R; simpl; try apply more_invalid_refl.
+    destruct (i0_run c s I0 r R) as [Hpage [rest Hdb]].
+    pose proof (inv0_dom c s I0) as D.
+    assert (Hsame : forall mk', mk_le (s_mk s) mk' -> forall cl', (fst (determine c s) <= fst (determine c (mkSt (s_now s) (s_db s) (s_ic s) (s_qc s) cl' mk' None (Nat.max (s_done s) (length (r_seen r)))))) ->
+              more_invalid c s (mkSt (s_now s) (s_db s) (s_ic s) (s_qc s) cl' mk' None (Nat.max (s_done s) (length (r_seen r))))).
+    { intros mk' Hle cl' Ht. unfold more_invalid. simpl.
+      split; [reflexivity|]. split; [reflexivity|].
+      split; [intros; assumption|]. split; [intros; assumption|]. split; [exact Hle | exact Ht]. }
+    unfold finish. destruct (r_page r) as [|newest page'] eqn:Pg.
+    + simpl. apply Hsame; [apply (proj1 (mk_le_aset c (s_now s) (s_mk s) MStore D))|].
+      unfold determine, cl_live; simpl. lia.
+    + assert (Ht : forall mk', fst (determine c s) <=
+                fst (determine c (mkSt (s_now s) (s_db s) (s_ic s) (s_qc s)
+                       (Some (mkCL (ch_ts newest) (s_now s) (s_now s + c_qttl c))) mk' None
+                       (Nat.max (s_done s) (length (r_seen r)))))).
+      { intro mk'. unfold determine, cl_live; simpl.
+        assert (L : s_now s <? s_now s + c_qttl c = true) by (apply N.ltb_lt; lia). rewrite L. simpl.
+        destruct (s_cl s) as [e|] eqn:Cl; simpl; [|lia]. destruct (s_now s <? cl_exp e); simpl; [|lia].
+        destruct (i0_cl c s I0 e Cl) as [_ [_ [ch [_ [E Hin]]]]]. rewrite E.
+        apply (seen_le_newest c s (r_seen r) rest newest page' (i0_sorted c s I0) Hdb); [rewrite <- Hpage; reflexivity|].
+        apply Hin. exact R. }
+      destruct (ch_ts newest <=? r_cached r); [simpl; apply Hsame; [apply mk_le_refl | apply Ht]|].
+      destruct (Nat.eqb _ _).
+      * simpl. apply Hsame; [apply (proj1 (mk_le_aset c (s_now s) (s_mk s) MStore D)) | apply Ht].
+      * destruct (drop_old c (s_now s) (rev (newest :: page'))) as [|ch0 rec'] eqn:Drop.
+        -- simpl. apply Hsame; [apply mk_le_refl | apply Ht].
+        -- cbn [fst]. apply Hsame; [apply (proj1 (mk_le_set_markers c (s_now s) (ch0 :: rec') (s_mk s) D)) | apply Ht].
+Qed.
+
+(* ------------------------------------------------------------------------------------------ *)
+(* fresh_atb decides fresh_at                                                                  *)
+
+Lemma fresh_atb_spec db i a : fresh_atb db i a = true <-> fresh_at db i a.
+Proof.
+  unfold fresh_atb, fresh_at. destruct (nth_error db i) as [ch|]; split.
+  - intros H ch0 E k n Hin Ht. injection E as <-. rewrite forallb_forall in H.
+    specialize (H (k, n) Hin). simpl in H. rewrite Ht in H. simpl in H. apply Nat.ltb_lt. exact H.
+  - intro H. apply forallb_forall. intros [k n] Hin. simpl.
+    destruct (touches (ch_tup ch) k) eqn:Ht; simpl; [|reflexivity]. apply Nat.ltb_lt. apply (H ch eq_refl k n Hin Ht).
+  - intros _ ch0 E; discriminate.
+  - reflexivity.
+Qed.
+
+Lemma controller_only_invalidates_lemma :
+  forall (c : cfg) (h : list op) (o : op), 0 < c_qttl c -> controller_op o = true ->
+  let s := run_ops c h init_state in more_invalid c s (fst (step c s o)).
+Proof.
+  intros c h o Q Ho s. apply controller_only_invalidates_step; try assumption.
+  apply inv0_run. apply inv0_init.
+Qed.
+
+Lemma invalidation_never_wrong_lemma :
+  forall (c : cfg) (h : list op) (o : op), 0 < c_qttl c -> controller_op o = true ->
+  let s := run_ops c h init_state in
+  cache_consistent c s ->
+  let s' := fst (step c s o) in
+  forall keys st jq jis,
+  answer_views (s_db s') (out_src (snd (step c s' (Request keys st jq jis)))) = uncached_views (s_db s') keys.
+Proof.
+  intros c h o Q Ho s Cons s' keys st jq jis.
+  apply (invalidation_correct_lemma c s s' Cons).
+  apply controller_only_invalidates_lemma; assumption.
+Qed.
+
+(* ------------------------------------------------------------------------------------------ *)
+(* Witnesses: what the faithful model does outside the hypotheses of staleness_bounded         *)
+
+Definition w_k1 : ikey := KOR 1 1 1 1.
+Definition w_k2 : ikey := KOR 1 1 2 1.
+Definition w_t (u : N) : tup := mkTup u 1 1 1 false.
+
+(* both caches on (docs/caching.md, "Stale Query Cache Entry via Stale Iterator Cache") *)
+Definition w_cfg_both : cfg := mkCfg true true 300 300 100 1000000 50 0 1.
+(* one cache, 100% jitter *)
+Definition w_cfg_jit_i : cfg := mkCfg false true 300 300 100 1000000 50 100 1.
+Definition w_cfg_jit_q : cfg := mkCfg true false 300 300 100 1000000 50 100 1.
+(* one cache, no jitter, but a clock so coarse that a write gets the timestamp of the read before it *)
+Definition w_cfg_coarse : cfg := mkCfg false true 300 300 100 1000000 50 0 0.
+
+Definition refutes (c : cfg) (h1 : list op) (ws : list tup) (h2 h3 h4 : list op) (i : nat) (keys : list ikey) : Prop :=
+  (exists x, s_run (run_ops c (h1 ++ [Write ws] ++ h2) init_state) = Some (RPending x)) /\
+  no_finish h3 = true /\
+  (i < length (s_db (run_ops c (h1 ++ [Write ws]) init_state)))%nat /\
+  let s := run_ops c (h1 ++ [Write ws] ++ h2 ++ [InvRead] ++ h3 ++ [InvFinish] ++ h4) init_state in
+  ~ fresh_at (s_db s) i (out_src (snd (step c s (Request keys true 0 [])))).
+
+Ltac refute :=
+  unfold refutes; split; [eexists; vm_compute; reflexivity|];
+  split; [vm_compute; reflexivity|]; split; [vm_compute; lia|];
+  cbv zeta; intro H; apply fresh_atb_spec in H; vm_compute in H; discriminate.
+
+Lemma both_caches_refuted_lemma :
+  exists c h1 ws h2 h3 h4 i keys,
+    c_qon c = true /\ c_ion c = true /\ c_jit c = 0 /\ cfg_rest c = true /\ refutes c h1 ws h2 h3 h4 i keys.
+Proof.
+  exists w_cfg_both, [Write [w_t 1]; Tick 1; Request [w_k1] true 0 []; Tick 1], [w_t 2],
+         [Tick 1; Request [w_k1; w_k2] true 0 []; Tick 1; InvStart], [], [Tick 1], 1%nat, [w_k1; w_k2].
+  do 4 (split; [reflexivity|]). refute.
+Qed.
+
+Lemma staleness_jitter_iter_refuted_lemma :
+  exists c h1 ws h2 h3 h4 i keys,
+    c_qon c = false /\ c_ion c = true /\ c_jit c = 100 /\ cfg_rest c = true /\ refutes c h1 ws h2 h3 h4 i keys.
+Proof.
+  exists w_cfg_jit_i, [Write [w_t 1]; Tick 1; Request [w_k1] true 0 [300]; Tick 1], [w_t 2],
+         [Tick 310; InvStart], [], [Tick 1], 1%nat, [w_k1].
+  do 4 (split; [reflexivity|]). refute.
+Qed.
+
+Lemma staleness_jitter_query_refuted_lemma :
+  exists c h1 ws h2 h3 h4 i keys,
+    c_qon c = true /\ c_ion c = false /\ c_jit c = 100 /\ cfg_rest c = true /\ refutes c h1 ws h2 h3 h4 i keys.
+Proof.
+  exists w_cfg_jit_q, [Write [w_t 1]; Tick 1; Request [w_k1] true 300 []; Tick 1], [w_t 2],
+         [Tick 1; InvStart], [], [Tick 310], 1%nat, [w_k1].
+  do 4 (split; [reflexivity|]). refute.
+Qed.
+
+Lemma staleness_coarse_clock_refuted_lemma :
+  exists c h1 ws h2 h3 h4 i keys,
+    c_wtick c = 0 /\
+    cfg_ok (mkCfg (c_qon c) (c_ion c) (c_qttl c) (c_ittl c) (c_interval c) (c_full c) (c_page c) (c_jit c) 1) = true /\
+    refutes c h1 ws h2 h3 h4 i keys.
+Proof.
+  exists w_cfg_coarse, [Tick 5; Write [w_t 1]; Request [w_k1] true 0 []], [w_t 2], [], [], [Tick 1], 1%nat, [w_k1].
+  do 2 (split; [reflexivity|]). refute.
 Qed.
